@@ -4,6 +4,14 @@
 // compares the printed results.
 package t
 
+import (
+	"cmp"
+	"math/rand"
+	"time"
+
+	"example.com/selftest/kv"
+)
+
 type acc struct {
 	n    int
 	data []int
@@ -157,4 +165,405 @@ func whileReturn(s []int, target int) int {
 		}
 	}
 	return -1
+}
+
+// scan: loop initialisers that are inc/dec statements, empty loop bodies, `for { … break }` (Hoare partition)
+func scan(s []int, lo, hi int) (int, int) {
+	i, j := lo, hi+1
+	for {
+		for i++; i < hi && s[i] < 5; i++ {
+		}
+		for j--; j > lo && s[j] > 5; j-- {
+		}
+		if i >= j {
+			break
+		}
+		s[i], s[j] = s[j], s[i]
+	}
+	return i, j
+}
+
+// draw2: a *rand.Rand parameter: Intn advances the generator (two calls in one expression, left to right) and
+// panics for a bound <= 0
+func draw2(r *rand.Rand, n int) int {
+	return r.Intn(n)*100 + r.Intn(n+1)
+}
+
+// draws: the caller sees how far a callee advanced the generator; a local that shadows the generator's name
+func draws(r *rand.Rand, n, k int) int {
+	s := 0
+	for i := 0; i < k; i++ {
+		r := 10*s + r.Intn(n-i)
+		s = r
+	}
+	x := draw2(r, n)
+	return s*1000 + x*10 + r.Intn(7)
+}
+
+// shuffle: Fisher-Yates with the generator as a parameter
+func shuffle(s []int, r *rand.Rand) {
+	n := len(s)
+	for i := 0; i < n; i++ {
+		j := i + r.Intn(n-i)
+		s[i], s[j] = s[j], s[i]
+	}
+}
+
+// clockShuffle: a generator seeded from the clock (an arbitrary stream in the translation); what is returned
+// does not depend on the draws
+func clockShuffle(s []int) int {
+	seed := time.Now().UTC().UnixNano()
+	r := rand.New(rand.NewSource(seed))
+	shuffle(s, r)
+	sum := 0
+	for _, v := range s {
+		sum += v
+	}
+	return sum*10 + r.Intn(1)
+}
+
+// table: slots own their (mutable) records; tags are immutable records and may be shared between slots
+type table struct {
+	n     int
+	slots []*kv.Pair[int, int]
+	tags  []*kv.Tag
+}
+
+func newTable(n int) *table {
+	return &table{n: 0, slots: make([]*kv.Pair[int, int], n), tags: make([]*kv.Tag, n)}
+}
+
+// put: a fresh literal is stored into a slot, which owns it from then on
+func (t *table) put(i, k, v int) {
+	t.slots[i] = &kv.Pair[int, int]{Key: k, Val: v}
+	t.n++
+}
+
+// setKey: assignment through the pointer in a slot; panics for i out of range and for an empty (nil) slot
+func (t *table) setKey(i, k int) {
+	t.slots[i].Key = k
+}
+
+// bumpVal: operator assignment through the pointer
+func (t *table) bumpVal(i, d int) {
+	t.slots[i].Val += d
+}
+
+// take: the slot is read into a local (a borrow), cleared, and the record is still readable afterwards;
+// an empty slot panics only at p.Key, after the slot was cleared and n decremented
+func (t *table) take(i int) (int, int) {
+	p := t.slots[i]
+	t.slots[i] = nil
+	t.n--
+	return p.Key, p.Val
+}
+
+// tag: one immutable record shared by two slots; nil comparison
+func (t *table) tag(i, j, id int) int {
+	g := &kv.Tag{ID: id}
+	t.tags[i] = g
+	t.tags[j] = g
+	c := 0
+	for k := range t.tags {
+		if t.tags[k] != nil {
+			c += t.tags[k].ID
+		}
+	}
+	return c
+}
+
+func (t *table) sum() int {
+	s := t.n * 1000000
+	for i := range t.slots {
+		if t.slots[i] != nil {
+			s += (i+1)*t.slots[i].Key + 100*t.slots[i].Val
+		}
+	}
+	return s
+}
+
+// records: a script of operations on a table of 4 slots (op = x % 5, slot = x / 5 - 1, so slots -1 and 4 are out of range)
+func records(script []int) int {
+	t := newTable(4)
+	acc := 0
+	for _, x := range script {
+		op, i := x%5, x/5-1
+		switch {
+		case op == 0:
+			t.put(i, x, acc)
+		case op == 1:
+			t.setKey(i, acc+x)
+		case op == 2:
+			t.bumpVal(i, x)
+		case op == 3:
+			k, v := t.take(i)
+			acc += k + 2*v
+		default:
+			g := t.tag(i, (i+1)%4, x)
+			acc += g
+		}
+	}
+	return acc*7 + t.sum()
+}
+
+// words: uint arithmetic wraps around; shifts by a signed count panic for a negative count and give 0 from 64 on;
+// constant shifts; the bitwise operators
+func words(x, y uint, s int) (uint, uint, uint, uint, uint, uint) {
+	const K = 3
+	a := x + y
+	b := x - y
+	c := x * y
+	d := (x >> s) | (y << s)
+	e := (x & y) ^ (x &^ y) ^ (^y >> K) ^ (x << 70) ^ (x >> 61)
+	var f uint = 7
+	f -= x
+	f *= 3
+	return a, b, c, d, e, f
+}
+
+// ibits: shifts and masks of (signed) int: arithmetic shift, two's-complement and / or / xor / not
+func ibits(v, s int) (int, int, int, int) {
+	return v >> s, (v >> s) & 255, (v | 5) ^ (v >> 2), ^v
+}
+
+// bytesOf: a string is its bytes: len, indexing (panics out of range), byte arithmetic wraps at 256, a byte as an index,
+// conversions between int, uint and byte, string constants and comparison
+func bytesOf(s string, i int, tab []int) (int, int, int, int) {
+	b := s[i]
+	var w byte = b + 200
+	u := uint(b) << 60
+	k := 0
+	if s < "mid" || s == "zz" {
+		k = 1
+	}
+	return len(s)*1000 + int(b), int(w)*2 + k, tab[b&3] + tab[uint(i)], int(u>>58) + int(byte(i+250)) + int(uint(i-3)>>60)
+}
+
+// sortOrd: the native order of a type parameter constrained by cmp.Ordered (ints, uints, strings)
+func sortOrd[T cmp.Ordered](a []T) int {
+	swaps := 0
+	for i := 0; i < len(a); i++ {
+		for j := i; j > 0 && a[j] < a[j-1]; j-- {
+			a[j], a[j-1] = a[j-1], a[j]
+			swaps++
+		}
+	}
+	if len(a) > 1 && a[0] >= a[len(a)-1] {
+		swaps += 100
+	}
+	return swaps
+}
+
+func sortStrings(a []string) int {
+	n := sortOrd[string](a)
+	return n
+}
+
+func sortUints(a []uint) int {
+	n := sortOrd[uint](a)
+	return n
+}
+
+func sortInts(a []int) int {
+	n := sortOrd[int](a)
+	return n
+}
+
+// paint: a recursive call inside a loop (the callee modifies the slice its caller goes on using)
+func paint(a []int, lo, hi, depth int) {
+	if depth == 0 || hi < lo {
+		return
+	}
+	mid := (lo + hi) / 2
+	a[mid] += depth
+	for k := 0; k < 2; k++ {
+		if k == 0 {
+			paint(a, lo, mid-1, depth-1)
+		} else {
+			paint(a, mid+1, hi, depth-1)
+		}
+	}
+}
+
+// gshuffle: math/rand's package-level generator (threaded through the callee as an extra in-out parameter);
+// the result does not depend on the draws, but rand.Intn(n) panics for n <= 0
+func gdraw(n int) int { return rand.Intn(n) * 0 }
+
+func gshuffle(s []int, extra int) int {
+	n := len(s)
+	for i := 0; i < n; i++ {
+		j := i + rand.Intn(n-i)
+		s[i], s[j] = s[j], s[i]
+	}
+	sum := gdraw(extra + 1)
+	for _, v := range s {
+		sum += v
+	}
+	return sum
+}
+
+// euclid: max / min of unsigned words, % by a variable divisor (a zero divisor panics), / likewise
+func euclid(a, b uint64) (uint64, uint64) {
+	q := a / b
+	a, b = max(a, b), min(a, b)
+	for b != 0 {
+		a, b = b, a%b
+	}
+	return a, q
+}
+
+// nextMultiple: a loop without a condition that ends by return only; max / min of ints
+func nextMultiple(n, k int) int {
+	lo := min(n, k, 7)
+	for p := max(n, 0); ; p++ {
+		if p%k == 0 {
+			return p + lo
+		}
+	}
+}
+
+// bag: variadic methods (called with individual arguments and with `xs...`), removal of one element in place
+// (`append(s[:i], s[i+1:]...)`: panics unless 0 <= i < len), a constructor declared as an interface that returns a local
+type sizer interface{ size() int }
+
+type bag struct{ items []int }
+
+func newBag(vals ...int) sizer {
+	b := &bag{items: make([]int, 0)}
+	b.add(vals...)
+	return b
+}
+
+func (b *bag) size() int { return len(b.items) }
+
+func (b *bag) has(vals ...int) bool {
+	for _, v := range vals {
+		found := false
+		for _, x := range b.items {
+			if x == v {
+				found = true
+			}
+		}
+		if !found {
+			return false
+		}
+	}
+	return true
+}
+
+func (b *bag) add(vals ...int) {
+	for _, v := range vals {
+		if !b.has(v) {
+			b.items = append(b.items, v)
+		}
+	}
+}
+
+func (b *bag) removeAt(i int) {
+	b.items = append(b.items[:i], b.items[i+1:]...)
+}
+
+// bagScript: x%4 == 0 add(x, x/4), 1 removeAt(x/4 - 2), 2 has(x/4, 3), 3 has()
+func bagScript(init []int, script []int) int {
+	b := &bag{items: make([]int, 0)}
+	b.add(init...)
+	acc := 0
+	for _, x := range script {
+		switch {
+		case x%4 == 0:
+			b.add(x, x/4)
+		case x%4 == 1:
+			b.removeAt(x/4 - 2)
+		case x%4 == 2:
+			if b.has(x/4, 3) {
+				acc += 100
+			}
+		default:
+			if b.has() {
+				acc++
+			}
+		}
+	}
+	for i, v := range b.items {
+		acc += (i + 2) * v * 1000
+	}
+	return acc + b.size()
+}
+
+// kind: a named integer type with constants
+type kind int
+
+const (
+	kA kind = iota
+	kB
+	kC
+)
+
+func kindOK(k kind) bool { return k == kA || k == kC }
+
+// net: slices of slices grown in place (`g.adj[v] = append(g.adj[v], w)`), a variadic parameter of fixed-size arrays,
+// a nil slice as a result, ranging over an element of a slice of slices while another object is modified
+type net struct {
+	n   int
+	adj [][]int
+}
+
+func newNet(n int, edges ...[2]int) *net {
+	adj := make([][]int, n)
+	for i := range adj {
+		adj[i] = make([]int, 0)
+	}
+	g := &net{n: n, adj: adj}
+	for _, e := range edges {
+		g.link(e[0], e[1])
+	}
+	return g
+}
+
+func (g *net) link(v, w int) {
+	if v >= 0 && v < g.n {
+		g.adj[v] = append(g.adj[v], w)
+	}
+}
+
+func (g *net) flip() *net {
+	r := newNet(g.n)
+	for v := 0; v < g.n; v++ {
+		for _, w := range g.adj[v] {
+			r.link(w, v)
+		}
+	}
+	return r
+}
+
+func (g *net) out(v int) []int {
+	if v < 0 || v >= g.n {
+		return nil
+	}
+	o := make([]int, len(g.adj[v]))
+	copy(o, g.adj[v])
+	return o
+}
+
+func netScript(n int, k kind, pairs []int) int {
+	g := newNet(n, [2]int{0, 1}, [2]int{1, 1})
+	for i := 0; i+1 < len(pairs); i += 2 {
+		g.link(pairs[i], pairs[i+1])
+	}
+	r := g.flip()
+	acc := 0
+	if kindOK(k) {
+		acc = 5
+	}
+	for v := -1; v <= n; v++ {
+		o := r.out(v)
+		acc = acc*7 + len(o)
+		for _, w := range o {
+			acc = acc*3 + w
+		}
+	}
+	var pair [2]int
+	pair[1] = acc
+	pair[0] = len(pair)
+	return pair[0] + pair[1]
 }
